@@ -37,6 +37,8 @@ func checkC13(c *Ctx) {
 	ruleL5(c)
 	ruleL6(c, allPkgs, 15)
 	ruleL6c(c, allPkgs)
+	ruleOnce(c)
+	ruleL4p(c, map[string]bool{"fun.WaitGroup": true, "pubsub.Queue": true, "pubsub.Deque": true, "erc.Collector": true, "dt.Set": true}, 1)
 }
 
 // ruleU3: X.WithLock(m) returns a closure whose every invocation of X happens
@@ -393,6 +395,7 @@ func checkC14(c *Ctx) {
 	ruleV3(c)
 	ruleG2(c)
 	ruleL4(c, owners, 3)
+	ruleL4p(c, owners, 1)
 }
 
 func checkC15(c *Ctx) {
@@ -407,6 +410,7 @@ func checkC15(c *Ctx) {
 	ruleU7(c)
 	ruleU8(c)
 	lockRules(c, map[string]bool{"fun.limitExec": true, "fun.ttlExec": true}, map[string]int{"L1": 2})
+	ruleOnce(c)
 	// the StartGroup / Launch waiters are WaitGroup.Wait
 	wgOwner := map[string]bool{"fun.WaitGroup": true}
 	condRules(c, wgOwner, map[string]int{"W1": 1, "W2": 1, "W2b": 1, "W3": 1, "W4": 2, "W6": 1, "W8": 1})
